@@ -222,6 +222,10 @@ def render_A(mods):
                 L.append("  end interface")
                 if e["access"] and e["how"] == "attr":
                     L.append(f"  {e['access']} :: {e['name']}")
+        if m.get("undoc"):
+            # a public procedure without any documentation (A may be built with hide_undoc)
+            L.insert(L.index("  implicit none") + 1, f"  public :: {m['undoc']}")
+            body += [f"  subroutine {m['undoc']}()", f"  end subroutine {m['undoc']}"]
         if body:
             L.append("contains")
             L += body
@@ -451,6 +455,14 @@ def gen_case(ch: Chooser, excl=()):
         naming = ch.choice(["remote", "remote-slash", "remote-deep"])
     a_display = ch.choice([["public"], ["public", "private"], ["public", "protected"]])
     a_extra = {}
+    if "undocumented_export" not in excl and ch.bool(1, 3):
+        amods[-1]["undoc"] = "undoc_sub_a"
+        if ch.bool(2, 3):
+            a_extra["hide_undoc"] = True
+        # B calls it (the call graph of B links to the procedure's page in A, if A has one)
+        bfiles["B/src/zz_undoc_user.f90"] = (f"module zz_undoc_user\n  !! uses an undocumented procedure of A\n  use {amods[-1]['name']}\n"
+                                             "  implicit none\ncontains\n  subroutine zz_go()\n    !! calls it\n"
+                                             "    call undoc_sub_a()\n  end subroutine zz_go\nend module zz_undoc_user\n")
     if ch.bool(1, 4):
         a_extra["incl_src"] = False
     if ch.bool(1, 4):
@@ -483,7 +495,8 @@ def finish_case(amods, bfiles, refs, neg, inside, kinds, history, naming, a_disp
     for i, m in enumerate(amods):
         ex = exports(amods, i, cache)
         expected_json[m["name"]] = {
-            "pub_procs": sorted(n for n, v in ex.items() if v[0] in ("sub", "fun", "gen", "helper")),
+            "pub_procs": sorted([n for n, v in ex.items() if v[0] in ("sub", "fun", "gen", "helper")] +
+                                ([m["undoc"]] if m.get("undoc") and not a_extra.get("hide_undoc") else [])),
             "pub_types": sorted(n for n, v in ex.items() if v[0] == "type"),
             "pub_vars": sorted(n for n, v in ex.items() if v[0] == "var"),
             "pub_absints": sorted(n for n, v in ex.items() if v[0] == "absint"),
@@ -494,6 +507,8 @@ def finish_case(amods, bfiles, refs, neg, inside, kinds, history, naming, a_disp
     for i, m in enumerate(amods):
         f, fr = target_of("module", m, None)
         public_targets.append([f, fr])
+        if m.get("undoc") and not a_extra.get("hide_undoc"):
+            public_targets.append([f"proc/{m['undoc']}.html", ""])
         for e in m["ents"]:
             if effective(m, e) == "public":
                 public_targets.append(list(target_of(e["k"], e, m)))
@@ -510,7 +525,7 @@ def finish_case(amods, bfiles, refs, neg, inside, kinds, history, naming, a_disp
         ["B:" + k + "=" + str(v) for k, v in (b_extra or {}).items()]
     special = bool(set(kinds) & {"clash-module", "clash-entity", "private-name"}) or naming.startswith("remote") or damaged
     return {"files": files, "refs": refs, "neg": neg, "inside": inside, "history": history, "naming": naming,
-            "expected_json": expected_json, "damaged": damaged,
+            "expected_json": expected_json, "damaged": damaged, "a_hide_undoc": bool(a_extra.get("hide_undoc")),
             "public_targets": public_targets, "uses_graph": b_graph,
             "classes": classes, "nontrivial": bool(len(kinds) >= 3 and special)}
 
@@ -642,7 +657,8 @@ def check(case) -> Result:
                         missing = sorted(set(names) - set(have))
                         if extra:
                             res.fail(f"json-exports-extra:{key}", f"modules.json {name}.{key} lists {extra} which are not public entities of {name} (public: {names})")
-                        if missing:
+                        if missing and not case.get("a_hide_undoc"):
+                            # (under hide_undoc A does not show - and so does not export - what it considers undocumented)
                             res.fail(f"json-exports-missing:{key}", f"modules.json {name}.{key} lacks public {missing} (has {have})")
             # ---- damage
             if history == "json-missing":
